@@ -123,6 +123,14 @@ def driver(plan, cfg, shell_header, replies=None):
                 L.append(step_block(f'user {p["name"]}.out.{e["name"]}', arg_decls(e, base), call_expr(p['name'] + '_u', e, 'out'), e))
             else:                                       # the component calls a requires in-event
                 L.append(step_block(f'enc {p["name"]}.in.{e["name"]}', arg_decls(e, base), call_expr('enc->' + p['name'], e, 'in'), e))
+    # the multi-client port through client A: claim (granted), every other in-event, every out-event, release, an out-event again
+    for p in plan['ports']:
+        if not (p['exposed'] and p['exposed']['mc']):
+            continue
+        for title, e, target, lbl, b in mc_sequence(p):
+            if title.startswith('mc A') and e['name'] == p['exposed']['mc']['claim']:
+                L.append(f'    verif::replies()["{p["name"]}.{e["name"]}"] = {mc_grant(p)};')
+            L.append(step_block(f'{title} {p["name"]}.{lbl}.{e["name"]}', arg_decls(e, b), call_expr(target, e, lbl), e))
     L.append('    return 0;')
     L.append('}')
     return '\n'.join(L) + '\n'
@@ -187,7 +195,57 @@ def expected_trace(plan, cfg, replies=None):
                 out.append(f'STEP enc {p["name"]}.in.{e["name"]}')
                 out.append(f'  REC USER {p["name"]}.in.{e["name"]}({ins}) ctx=C')
                 out.append(f'  RET {ret} OUTS {outs} QUEUED 0')
+    for p in plan['ports']:
+        if not (p['exposed'] and p['exposed']['mc']):
+            continue
+        released = False
+        for title, e, target, lbl, b in mc_sequence(p):
+            ins = ','.join(show_val(f['type'], b + k) for k, f in enumerate(e['formals']) if f['dir'] != 'out')
+            rt = MM.ret_type(e)
+            is_claim = e['name'] == p['exposed']['mc']['claim']
+            ret = 'void' if rt == 'void' else str(mc_grant(p) if is_claim else replies.get(f'{p["name"]}.{e["name"]}', 0))
+            outs = ','.join(show_val(f['type'], 700 + k) for k, f in enumerate(e['formals']) if f['dir'] != 'in')
+            out.append(f'STEP {title} {p["name"]}.{lbl}.{e["name"]}')
+            if lbl == 'in':
+                out.append(f'  REC ENC {p["name"]}.in.{e["name"]}({ins}) ctx=D')
+                out.append(f'  RET {ret} OUTS {outs} QUEUED 0')
+                released = released or e['name'] == p['exposed']['mc']['release']
+            else:
+                if not released:
+                    out.append(f'  REC USER {p["name"]}@A.out.{e["name"]}({ins}) ctx=C')
+                out.append('  RET void OUTS  QUEUED 0')
     return out
+
+
+def mc_grant(p):
+    mc = p['exposed']['mc']
+    claim = next(e for e in p['itf']['events'] if e['name'] == mc['claim'])
+    return claim['ret'][1]['fields'].index(mc['reply'][-1])
+
+
+def mc_sequence(p):
+    """(step title, event, call target, in/out, argument base) for the multi-client port p, through client A"""
+    mc = p['exposed']['mc']
+    evs = p['itf']['events']
+    claim = next(e for e in evs if e['name'] == mc['claim'])
+    release = next(e for e in evs if e['name'] == mc['release'])
+    seq = [('mc A', claim, p['name'] + '_A', 'in', 300)]
+    b = 310
+    for e in evs:
+        if not e['out'] and e is not claim and e is not release:
+            seq.append(('mc A', e, p['name'] + '_A', 'in', b))
+            b += 10
+    for e in evs:
+        if e['out']:
+            seq.append(('mc enc', e, 'enc->' + p['name'], 'out', b))
+            b += 10
+    seq.append(('mc A', release, p['name'] + '_A', 'in', b))
+    b += 10
+    for e in evs:
+        if e['out']:
+            seq.append(('mc enc after release', e, 'enc->' + p['name'], 'out', b))
+            break
+    return seq
 
 
 # ---------------------------------------------------------------- C10: one event left unbound
